@@ -277,6 +277,9 @@ pub(crate) fn stub_adler_ident(start: u32, data: &[u8]) -> u32 {
 }
 /// contract stub: the window loader consumes all the input it is given (window contents are KD9's subject)
 pub(crate) fn stub_fill_window_consume(stream: &mut DeflateStream) {
+    // caller-side preconditions of the real fill_window (it computes `strstart - insert` and asserts the look-ahead bound)
+    assert!(stream.state.insert <= stream.state.strstart, "fill_window: `insert` counts bytes that lie before `strstart`");
+    assert!(stream.state.lookahead < MIN_LOOKAHEAD);
     stream.next_in = stream.next_in.wrapping_add(stream.avail_in as usize);
     stream.avail_in = 0;
     stream.state.lookahead = 0;
@@ -309,6 +312,9 @@ fn kd10_set_dictionary_protocol() {
     state.lookahead = la;
     state.strstart = kani::any();
     kani::assume(state.strstart <= 100);
+    // strings at the end of the previous input still to be inserted into the hash (deflate_* leave min(strstart, 2) here)
+    state.insert = kani::any();
+    kani::assume(state.insert <= 2 && state.insert <= state.strstart);
     let mut stream = typed_stream(unsafe { &mut *(&mut state as *mut State) });
     let user_in = [0u8; 4];
     stream.next_in = user_in.as_ptr() as *mut u8;
